@@ -5,8 +5,10 @@ pub mod bigmodel;
 pub mod engine;
 pub mod gens;
 pub mod layout;
+pub mod pp;
 pub mod props;
 pub mod starx;
+pub mod wiregen;
 
 pub use engine::{Ctx, Property, Tier};
 
